@@ -99,6 +99,8 @@ def check(col: Collector, tier: str):
     from sa.props._tr import import_obligations
     import_obligations(col, "C08.R6", "c14", lambda o: o.detail == "name-competes-with-inject-blocks-only",
                        "two declarations of different kinds and the same name must be accepted wherever along the chain they are attached")
+    import_obligations(col, "C08.R6", "c03", lambda o: o.construct == "_extract_column_names",
+                       "qastle writes a tuple of column names as a list: the two wire formats agree only if tuple and list are read alike")
     import_obligations(col, "C08.R6", "c10", lambda o: o.detail == "registered-under-type-and-method-with-deref-count",
                        "a default that is carried over from the previous metadata item makes the result depend on the order the declarations are met in")
     from sa.props import c15
